@@ -13,22 +13,23 @@ import (
 )
 
 type Config struct {
-	MergeDefault   bool
-	MergeMaxBlocks int
-	Policy         map[string]string // function name (ssa String()) -> "merge" | "fork"
-	Unwind         int               // max visits of one block per frame
-	MaxDepth       int
-	MaxSteps       int
-	MaxPaths       int
-	FeasMs         int // feasibility query timeout
-	FinalMs        int // final (violation) query timeout
-	Verbose        int
-	StopOnViol     bool
-	Known          map[string]bool // known-finding ids
-	AllocBound     int             // bound for symbolic make sizes (elements)
-	Thorough       bool
-	Deadline       time.Time
-	OKSampleMax    int
+	MergeDefault     bool
+	MergeMaxBlocks   int
+	MergeMaxOutcomes int
+	Policy           map[string]string // function name (ssa String()) -> "merge" | "fork"
+	Unwind           int               // max visits of one block per frame
+	MaxDepth         int
+	MaxSteps         int
+	MaxPaths         int
+	FeasMs           int // feasibility query timeout
+	FinalMs          int // final (violation) query timeout
+	Verbose          int
+	StopOnViol       bool
+	Known            map[string]bool // known-finding ids
+	AllocBound       int             // bound for symbolic make sizes (elements)
+	Thorough         bool
+	Deadline         time.Time
+	OKSampleMax      int
 }
 
 type Stats struct {
@@ -45,6 +46,14 @@ type PanicInfo struct {
 	Kind string // "assert","runtime","explicit"
 	Msg  string
 	Site string
+	in   ssa.Instruction // Site is computed lazily from this
+}
+
+func (pi *PanicInfo) where() string {
+	if pi.Site == "" && pi.in != nil {
+		pi.Site = site(pi.in)
+	}
+	return pi.Site
 }
 
 type OutKind uint8
@@ -68,7 +77,7 @@ type deferRec struct {
 	fn     *FuncV
 	invoke *types.Func
 	args   []Value
-	site   string
+	site   ssa.Instruction
 }
 
 type Frame struct {
@@ -96,6 +105,8 @@ type FnInfo struct {
 	ipdom     []*ssa.BasicBlock // per block index; nil => exit
 	mergeable map[int]int       // block index -> 0 unknown, 1 yes, 2 no
 	firstNon  []int             // index of first non-phi instr per block
+	reach     [][]uint64        // reach[b] = blocks reachable from b (bitset), lazily computed
+	ctrl      map[int]int       // block index -> 1 loop-controlling branch, 2 not
 }
 
 type PathResult struct {
@@ -176,7 +187,7 @@ func (e *Exec) info(fn *ssa.Function) *FnInfo {
 	if fi, ok := e.fninfo[fn]; ok {
 		return fi
 	}
-	fi := &FnInfo{num: map[ssa.Value]int{}, mergeable: map[int]int{}}
+	fi := &FnInfo{num: map[ssa.Value]int{}, mergeable: map[int]int{}, ctrl: map[int]int{}}
 	n := 0
 	for _, p := range fn.Params {
 		fi.num[p] = n
@@ -336,6 +347,9 @@ func (e *Exec) eval(st *State, fr *Frame, v ssa.Value) Value {
 	if r == nil {
 		panic(fmt.Sprintf("internal: register %s unset in %s", v.Name(), fr.fn))
 	}
+	if t, ok := r.(*Term); ok && len(st.bind) > 0 {
+		return e.resolve(st, t)
+	}
 	return r
 }
 
@@ -391,6 +405,17 @@ func (e *Exec) setReg(fr *Frame, v ssa.Value, val Value) {
 
 func (e *Exec) check(st *State, extra *Term) string {
 	e.nFeas++
+	if extra != nil {
+		// syntactic shortcut: the negation of extra is already a conjunct of the path condition
+		neg := e.ctx.Not(extra)
+		for _, t := range st.pc {
+			if t == neg {
+				e.sol.nUnsat++
+				e.sol.nSyntactic++
+				return "unsat"
+			}
+		}
+	}
 	return e.sol.Check(st.pc, extra, e.cfg.FeasMs)
 }
 
@@ -440,12 +465,12 @@ func site(in ssa.Instruction) string {
 }
 
 func rtPanic(msg string, in ssa.Instruction) *PanicInfo {
-	return &PanicInfo{Kind: "runtime", Msg: msg, Site: site(in)}
+	return &PanicInfo{Kind: "runtime", Msg: msg, in: in}
 }
 
 // ---- calls ----
 
-func (e *Exec) callFn(st *State, fn *ssa.Function, args []Value, bind []Value, callSite string) (outs []Outcome) {
+func (e *Exec) callFn(st *State, fn *ssa.Function, args []Value, bind []Value, callSite ssa.Instruction) (outs []Outcome) {
 	if h, ok := e.hooks[fn.String()]; ok {
 		fn = h
 	}
@@ -510,7 +535,7 @@ func (e *Exec) mergeReturns(outs []Outcome, basePC int) []Outcome {
 			rest = append(rest, o)
 		}
 	}
-	if len(rets) < 2 {
+	if len(rets) < 2 || len(rets) > e.cfg.MergeMaxOutcomes {
 		return outs
 	}
 	merged := e.mergeOutcomes(rets, basePC)
@@ -656,7 +681,7 @@ func (e *Exec) mergeTwo(a, b Outcome, basePC int) (Outcome, bool) {
 	pc := append([]*Term(nil), sa.pc[:basePC]...)
 	pc = append(pc, e.ctx.Or(ga, gb))
 	ns := &State{pc: pc, heap: heap, epoch: epoch, draws: draws, covers: unionStrings(sa.covers, sb.covers),
-		panics: sa.panics, steps: maxInt(sa.steps, sb.steps), prefix: sa.prefix, npre: sa.npre, depth: sa.depth, observes: obs}
+		panics: sa.panics, steps: maxInt(sa.steps, sb.steps), prefix: sa.prefix, npre: sa.npre, depth: sa.depth, observes: obs, ctx: sa.ctx, bind: commonBind(sa.bind, sb.bind)}
 	e.stats.Merges++
 	return Outcome{kind: a.kind, st: ns, fr: fr, val: val}, true
 }
@@ -811,11 +836,6 @@ func (e *Exec) enter(st *State, fr *Frame, from, to *ssa.BasicBlock) bool {
 		}
 	}
 	fr.prev = from
-	fr.visits[to.Index]++
-	if fr.visits[to.Index] > e.cfg.Unwind {
-		e.event("unwind", fmt.Sprintf("loop bound %d exceeded at block %d of %s", e.cfg.Unwind, to.Index, fr.fn))
-		return false
-	}
 	return true
 }
 
@@ -934,7 +954,7 @@ func (e *Exec) runBlock(st *State, fr *Frame, blk *ssa.BasicBlock, idx int, stop
 				return res
 			case *ssa.Panic:
 				v := e.eval(st, fr, x.X)
-				pi := &PanicInfo{Kind: "explicit", Msg: e.panicMsg(v), Site: site(x)}
+				pi := &PanicInfo{Kind: "explicit", Msg: e.panicMsg(v), in: x}
 				res = append(res, e.unwindPanic(st, fr, pi, v)...)
 				return res
 			case *ssa.If:
@@ -960,7 +980,15 @@ func (e *Exec) runBlock(st *State, fr *Frame, blk *ssa.BasicBlock, idx int, stop
 					next = blk.Succs[1]
 					break
 				}
-				// both feasible
+				// both feasible: a symbolic decision. If this branch decides whether a loop is left,
+				// bound how often it may do so per frame (the unwinding assertion).
+				if loopControlling(fr.fn, fr.info, blk) {
+					fr.visits[blk.Index]++
+				}
+				if fr.visits[blk.Index] > e.cfg.Unwind {
+					e.event("unwind", fmt.Sprintf("unwinding bound %d exceeded at block %d of %s", e.cfg.Unwind, blk.Index, fr.fn))
+					return res
+				}
 				basePC := len(st.pc)
 				stF := e.fork(st)
 				stF.assume(e.ctx.Not(c))
@@ -991,7 +1019,10 @@ func (e *Exec) runBlock(st *State, fr *Frame, blk *ssa.BasicBlock, idx int, stop
 							}
 						}
 					}
-					merged := e.mergeOutcomes(stops, basePC)
+					merged := stops
+					if len(stops) <= e.cfg.MergeMaxOutcomes {
+						merged = e.mergeOutcomes(stops, basePC)
+					}
 					for _, m := range merged {
 						if j == stop {
 							res = append(res, m)
@@ -1066,7 +1097,7 @@ func (e *Exec) panicMsg(v Value) string {
 
 func (e *Exec) mkDefer(st *State, fr *Frame, d *ssa.Defer) deferRec {
 	c := d.Common()
-	rec := deferRec{site: site(d)}
+	rec := deferRec{site: d}
 	if c.IsInvoke() {
 		recv := e.eval(st, fr, c.Value).(*IfaceV)
 		if recv.T == nil {
@@ -1098,7 +1129,7 @@ func (e *Exec) lookupMethod(t types.Type, m *types.Func) *ssa.Function {
 
 func (e *Exec) doCall(st *State, fr *Frame, c *ssa.CallCommon, in ssa.Instruction) []Outcome {
 	var args []Value
-	cs := site(in)
+	cs := in
 	if c.IsInvoke() {
 		recv := e.eval(st, fr, c.Value).(*IfaceV)
 		if recv.T == nil {
@@ -1172,7 +1203,7 @@ func (e *Exec) ensureInit(p *ssa.Package) {
 		e.cfg.MaxSteps = 1 << 40
 		e.cfg.Unwind = 1 << 30
 		e.initTarget = initFn
-		outs := e.callFn(ist, initFn, nil, nil, "init")
+		outs := e.callFn(ist, initFn, nil, nil, nil)
 		e.initTarget = saveT
 		e.cfg.MaxSteps = saveSteps
 		e.cfg.Unwind = saveUnwind
@@ -1212,6 +1243,11 @@ func (e *Exec) step(st *State, fr *Frame, in ssa.Instruction, res *[]Outcome) ([
 	}
 	if r, ok := in.(*ssa.Range); ok {
 		return e.rangeAlts(st, fr, r)
+	}
+	if l, ok := in.(*ssa.Lookup); ok {
+		if alts, handled := e.lookupFork(st, fr, l); handled {
+			return alts, len(alts) > 0
+		}
 	}
 	return nil, e.step1(st, fr, in, res)
 }
@@ -1645,7 +1681,7 @@ func (e *Exec) makeSlice(st *State, fr *Frame, x *ssa.MakeSlice, res *[]Outcome)
 	} else {
 		// symbolic size: allocate the bound; sizes above the bound are an allocation-assertion failure
 		n = e.cfg.AllocBound
-		if !e.require(st, fr, c.BvBin(OpSle, cp, c.BVConst(uint64(n), 64)), &PanicInfo{Kind: "alloc", Msg: fmt.Sprintf("allocation of more than %d elements", n), Site: site(x)}, res) {
+		if !e.require(st, fr, c.BvBin(OpSle, cp, c.BVConst(uint64(n), 64)), &PanicInfo{Kind: "alloc", Msg: fmt.Sprintf("allocation of more than %d elements", n), in: x}, res) {
 			return false
 		}
 	}
@@ -1960,4 +1996,92 @@ func sameObs(a, b []Draw) bool {
 		}
 	}
 	return true
+}
+
+// loopControlling: blk (ending in If) lies on a cycle and exactly one successor can return to blk.
+func loopControlling(fn *ssa.Function, fi *FnInfo, blk *ssa.BasicBlock) bool {
+	if r := fi.ctrl[blk.Index]; r != 0 {
+		return r == 1
+	}
+	if fi.reach == nil {
+		n := len(fn.Blocks)
+		words := (n + 63) / 64
+		fi.reach = make([][]uint64, n)
+		for i := range fi.reach {
+			fi.reach[i] = make([]uint64, words)
+		}
+		changed := true
+		for changed {
+			changed = false
+			for i := n - 1; i >= 0; i-- {
+				for _, s := range fn.Blocks[i].Succs {
+					w := fi.reach[i]
+					old := w[s.Index/64]
+					w[s.Index/64] |= 1 << uint(s.Index%64)
+					if w[s.Index/64] != old {
+						changed = true
+					}
+					for k := range w {
+						o := w[k]
+						w[k] |= fi.reach[s.Index][k]
+						if w[k] != o {
+							changed = true
+						}
+					}
+				}
+			}
+		}
+	}
+	back := 0
+	for _, s := range blk.Succs {
+		if s == blk || fi.reach[s.Index][blk.Index/64]&(1<<uint(blk.Index%64)) != 0 {
+			back++
+		}
+	}
+	res := back == 1
+	if res {
+		fi.ctrl[blk.Index] = 1
+	} else {
+		fi.ctrl[blk.Index] = 2
+	}
+	return res
+}
+
+// resolve applies the state's variable bindings (var == const facts on the path) to simple terms.
+func (e *Exec) resolve(st *State, t *Term) *Term {
+	if len(st.bind) == 0 || t.IsConst() {
+		return t
+	}
+	switch t.op {
+	case OpVar:
+		if c, ok := st.bind[t]; ok {
+			return c
+		}
+	case OpZext:
+		if a := e.resolve(st, t.args[0]); a != t.args[0] {
+			return e.ctx.Zext(a, t.sort.W)
+		}
+	case OpSext:
+		if a := e.resolve(st, t.args[0]); a != t.args[0] {
+			return e.ctx.Sext(a, t.sort.W)
+		}
+	case OpExtract:
+		if a := e.resolve(st, t.args[0]); a != t.args[0] {
+			return e.ctx.Extract(a, t.a, t.b)
+		}
+	}
+	return t
+}
+
+func commonBind(a, b map[*Term]*Term) map[*Term]*Term {
+	if len(a) == 0 || len(b) == 0 {
+		return nil
+	}
+	r := map[*Term]*Term{}
+	for k, v := range a {
+		if b[k] == v {
+			r[k] = v
+		}
+	}
+	return r
 }
